@@ -358,6 +358,7 @@ type verifJHistCfg struct {
 	maxNovels      []int // drawn per history; 0 = production default
 	bigChunks      bool
 	smallMemtable  bool // allow histories whose memtable is tiny, so that Put flushes chunks to the journal before any commit
+	firstPuts      int  // up to this many extra leaf puts before the first commit
 }
 
 // verifJBufSizes are the journal writer buffer sizes a history may run with. The production
@@ -661,6 +662,11 @@ func verifJBuildHistory(rt *rapid.T, dir string, cfg verifJHistCfg) *verifJHist 
 	h.opf("maxNovel=%d bufSz=%d memtable=%d", h.maxNovel, h.bufSz, h.memSz)
 	// every history starts with a put and a commit so that a manifest and a first ack exist
 	h.opPutLeaf(rt, false)
+	if cfg.firstPuts > 0 {
+		for i, k := 0, rapid.IntRange(0, cfg.firstPuts).Draw(rt, "firstPuts"); i < k; i++ {
+			h.opPutLeaf(rt, false)
+		}
+	}
 	h.opCommit(rt)
 	n := rapid.IntRange(cfg.minOps, cfg.maxOps).Draw(rt, "nops")
 	for i := 0; i < n; i++ {
